@@ -59,6 +59,13 @@ fn fixed_cases() -> Vec<RuleCase> {
         f("a{1,2} (regex)", &[("a\n", true), ("aa\n", true), ("aaa\n", false), ("\n", false)]),
         f("hello{world} (regex)", &[("hello{world}\n", true), ("helloworld\n", false)]),
         f("hello\\{world\\} (regex)", &[("hello{world}\n", true)]),
+        // escapes that carry their own braces (the regex syntax the documentation points to)
+        f("\\p{L}+ (regex)", &[("h\u{e9}llo\n", true), ("h3llo\n", false)]),
+        f("\\P{L}+ (regex)", &[("123\n", true), ("12a\n", false)]),
+        f("[\\p{Greek}]+ (regex)", &[("\u{3b1}\u{3b2}\n", true), ("ab\n", false)]),
+        f("\\x{68}i (regex)", &[("hi\n", true), ("ho\n", false)]),
+        f("\\x{1F600}! (regex)", &[("\u{1F600}!\n", true)]),
+        f("\\u{1F600}{2} (regex)", &[("\u{1F600}\u{1F600}\n", true), ("\u{1F600}\n", false)]),
         f("foo|bar (re)", &[("foo\n", true), ("bar\n", true), ("fooxx\n", false), ("xxbar\n", false), ("foobar\n", false)]),
         f("Hello? (glob)", &[("Hello!\n", true), ("Hello\n", false), ("Hello!!\n", false)]),
         f("*Hello* (glob)", &[("say Hello you\n", true), ("Hello", true), ("Hell\n", false)]),
